@@ -29,6 +29,11 @@ fn bytes(s: &str) -> Sexp {
 // ------------------------------------------------------------------------------------------------
 // scripted generator
 
+thread_local! {
+    /// how often the scripted STREAM was polled (every poll, Pending or Ready)
+    static STREAM_POLLS: Cell<usize> = Cell::new(0);
+}
+
 #[derive(Clone)]
 struct BundleSpec {
     carried: Option<Vec<String>>,
@@ -177,6 +182,7 @@ impl Iterator for ScriptIter {
 impl futures::Stream for ScriptIter {
     type Item = FluentBundleResult<FluentResource>;
     fn poll_next(mut self: std::pin::Pin<&mut Self>, cx: &mut std::task::Context<'_>) -> std::task::Poll<Option<Self::Item>> {
+        STREAM_POLLS.with(|p| p.set(p.get() + 1));
         if !self.suspended {
             self.suspended = true;
             cx.waker().wake_by_ref();
@@ -314,7 +320,12 @@ fn request(bundles: &Bundles<ScriptGen>, req: &Sexp, pulls: &Rc<Cell<usize>>, sh
     let sync_api = r[1].is_sym("sync");
     let before = shared.len();
     let mut errors = std::mem::take(shared);
+    let polls_before = STREAM_POLLS.with(|p| p.get());
     let out = request_inner(bundles, r, sync_api, &mut errors, before, pulls);
+    // a sync request never touches the stream form of the source: in sync mode there is none, in async mode the request is refused
+    if sync_api && STREAM_POLLS.with(|p| p.get()) != polls_before {
+        panic!("a *_sync request polled the bundle STREAM of the source (it must be refused without touching the source)");
+    }
     *shared = errors;
     out
 }
